@@ -841,6 +841,9 @@ def c18(tier):
         n = rnd.choice([2, 3, 5, 8, 13, 40]) if tier == "quick" else rnd.choice([2, 3, 5, 8, 13, 40, 200])
         fail = rnd.choice([[], [], ["undecodable"], ["missing"], ["undecodable", "missing"], ["ok", "undecodable"]])
         scen.append({"n": n, "threads": threads, "fail": fail[:n], "seed": SEED * 100003 + i, "explicit": i % 3 != 0 or "missing" in fail})
+        if i % 4 == 1:
+            scen[-1]["mode"] = "stdout"
+            scen[-1]["n"] = max(n, 13)
     res = cli.run_scenarios(lambda i, sc: cli.run_batch_scenario(i, sc, texts), scen, threads=4)
     all_events = []
     ran = 0
@@ -889,5 +892,7 @@ def c18(tier):
     return c.finish(
         rule="CliWorkers.tla: every interleaving of 2 workers x 3 files and 3 workers x 4 files with failing subsets (TLC, exhaustive; with NO_CLEAR the long-then-short stale-buffer counterexample is found). "
              "Real batches (2..40 files, thorough ..200; mixed sizes, encodings, empty, undecodable and missing files; 1,2,3,8,16 threads; directory and shuffled explicit paths): every file must equal its solo result, exit status <=> some file failed; "
+             "a quarter of the batches run in stdout mode with outputs of up to several hundred KiB: the output must be the blocks `path:<LF>text<LF>` of the good files in some order, each in one piece; "
+             "CliExit.tla: the status for 0..512 (thorough ..65536) failing paths of each kind; "
              "the worker events recorded by the hook (buffer length before clear / after read, file length, write sequence) are validated by TLC against the model",
         assumptions=["rayon's real schedules are sampled, not enumerated; all schedules are enumerated on the model only"])
